@@ -19,8 +19,9 @@ Every job is handled in its own directory, with its own prophyc run (only `--cpp
 only `--cpp_out` for run_raw, so that one generator rejecting a schema does not hide the other), its own
 translation unit and its own executable; jobs are scheduled individually on common.NPROC threads
 (`batch` only groups job directories: jobs i*batch..(i+1)*batch-1 live under one sub-directory).
-`timeout` bounds every external process (prophyc, compiler, one driver run); `op_timeout` (seconds) bounds a
-single op inside the driver (alarm(2)); exceeding either is reported as a crash of that op.
+`timeout` (seconds) bounds every external process (prophyc, one driver run; the compiler gets max(timeout, 300));
+`op_timeout` (seconds) bounds a single op inside the driver (alarm(2)); an op exceeding either is a crashed op,
+a prophyc / compiler timeout is a prophyc_error / compile_error.
 `sanitize`: False | True (= "address,undefined" for run_full, "address" for run_raw) | a -fsanitize= list.
 Sanitized builds: `-fsanitize=... -fno-sanitize-recover=all -fno-omit-frame-pointer -O1 -g`, run with
 ASAN_OPTIONS=detect_leaks=0:allocator_may_return_null=1. Unsanitized: `-O1`. Always `-std=c++11 -w`.
@@ -56,8 +57,9 @@ Full codec ops (run_full)
                                 differ were never written by encode (the codec skips padding, it does not zero it)
      "reenc": hex               vector returned by encode<E>()
      "enc_little","enc_big","enc_native": hex   the three vector encodings of the decoded object
-     "exceptions": {key: name}  only if some of the steps above threw (e.g. bad_alloc because get_byte_size()
-                                is absurd); the keys of a step that threw are absent
+     "exceptions": {step: name} only if some of the steps above threw (e.g. bad_alloc because get_byte_size()
+                                is absurd); step is one of "size","print","ptr_bytes","ptr_bytes_ff","reenc",
+                                "enc_little","enc_big","enc_native"; the keys of a step that threw are absent
    always last:
      "heap_overrun": int        unsanitized builds only detect this: number of heap blocks (operator new blocks
                                 and the driver's exact-size buffers) whose first 64 bytes *after* the block were
@@ -72,7 +74,8 @@ Full codec ops (run_full)
    array / limited bytes member (schema kind ('limited', max, sizer)) of the root struct gets n extra
    default-constructed elements (`v.resize(v.size() + n)`; limited arrays and limited bytes are std::vector in
    the full codec). With deep true the same is done recursively in nested structs, set optionals, array
-   elements and union arms. Then "overfilled": [member names of the root that were extended] and "size",
+   elements and union arms (if a resize throws: "exception", "stage": "overfill", then "heap_overrun").
+   Then "overfilled": [member names of the root that were extended] and "size",
    "print", "ptr_written", "ptr_bytes", "ptr_bytes_ff", "reenc", "enc_*", "exceptions", "heap_overrun" as above
    for the modified object.
 
@@ -661,7 +664,7 @@ def _communicate(cmd, input_text, timeout, env=None, cwd=None):
         p.kill()
         out, err = p.communicate()
         rc = None
-    return rc, out.decode("latin-1"), err.decode("latin-1")
+    return rc, out.decode("utf-8", "replace"), err.decode("utf-8", "replace")
 
 
 _RELEVANT = re.compile(r"ERROR: \w*Sanitizer|SUMMARY:|runtime error:|terminate called|what\(\):|"
@@ -846,10 +849,12 @@ def _one_job(job, jobdir, kind, san, timeout, env, cxx):
         units = [drv, os.path.join(jobdir, base + ".pp.cpp")]
     with open(drv, "w") as f:
         f.write(src)
+    cenv = dict(os.environ)
+    cenv["LC_ALL"] = "C"
     rc, out, cerr = _communicate([cxx] + _cxxflags(san) + ["-I", jobdir] + units + ["-o", binary], None,
-                                 max(timeout, 60), cwd=jobdir)
+                                 max(timeout, 300), env=cenv, cwd=jobdir)
     if rc != 0 or not os.path.exists(binary):
-        return {"compile_error": "timeout" if rc is None else _compile_errors(cerr, dirs)}
+        return {"compile_error": "compiler timeout" if rc is None else _compile_errors(cerr, dirs)}
     ops = job.get("ops", [])
     return {"ops": _drive(binary, ops, env, timeout, dirs) if ops else []}
 
